@@ -888,6 +888,7 @@ void Run::execute() {
   g_run = this;
   setup_world();
   W.on_tx = [this](Tx &t) { for (auto &f : tx_obs) f(*this, t); };
+  for (auto &f : world_ready) f(*this);
   g_alloc.reset(); g_alloc.active = true;
   ares_library_init_mem(ARES_LIB_INIT_ALL, l_malloc, l_free, l_realloc);
   if (make_channel(0)) {
